@@ -46,6 +46,11 @@ def run(ctx):
 
     from rules import c05
     c05.defines_origins(ctx, run, "C06.R1")
+    # the join itself: nothing but urllib's urljoin plus the file:/x rewrite
+    # (no re-quoting of what the including resource's URL already escapes)
+    from rules import c18
+    c18.url_helpers(ctx, "C06.R2", ("urljoin",),
+                    "join of the include reference against the including URL")
 
     ref = "ref_cfgparser.py"
     lf = m.fn(PC + ".handle_include")
